@@ -13,3 +13,130 @@ def real_default_codecs(ctx):
     if not lines:
         raise vlib.NoVerdict("RegisterDefaultCodecs dump is empty")
     return [{k: l[k] for k in ("kind", "mime", "clock", "ch", "line", "pt", "fb")} for l in lines]
+
+
+def tlc_trace_parallel(ctx, spec, cfg, trace, jobs=4, timeout=900):
+    """vlib.tlc_trace for long traces: the file is cut at 'reset' lines into `jobs` pieces which are
+    validated by concurrent TLC processes (each piece is a complete sequence of behaviours; the trace
+    spec keeps no state across a reset).  Same result format as vlib.tlc_trace."""
+    import shutil
+    import subprocess
+    import time
+    from concurrent.futures import ThreadPoolExecutor
+
+    lines = [l for l in open(trace).read().splitlines() if l.strip()]
+    if not lines:
+        raise vlib.NoVerdict("empty trace %s" % trace)
+    starts = [i for i, l in enumerate(lines) if '"ev":"reset"' in l.replace(" ", "")]
+    if not starts or starts[0] != 0:
+        starts = [0] + starts
+    per = max(1, (len(starts) + jobs - 1) // jobs)
+    cuts = [starts[i] for i in range(0, len(starts), per)] + [len(lines)]
+    pieces = [lines[cuts[i]:cuts[i + 1]] for i in range(len(cuts) - 1)]
+
+    def one(i):
+        d = os.path.join(ctx.work, "ptlc-%s-%d" % (spec, i))
+        os.makedirs(d)
+        for f in os.listdir(vlib.SPEC):
+            if f.endswith(".tla") or f.endswith(".cfg"):
+                shutil.copy(os.path.join(vlib.SPEC, f), d)
+        p = os.path.join(d, "piece.ndjson")
+        with open(p, "w") as fh:
+            fh.write("\n".join(pieces[i]) + "\n")
+        env = dict(os.environ)
+        env["VERIF_TRACE"] = p
+        cmd = ["timeout", str(timeout), "tlc", "-metadir", os.path.join(d, "meta"), "-workers", "1",
+               "-config", cfg + ".cfg", "-seed", str(ctx.seed), spec + ".tla"]
+        t0 = time.time()
+        r = subprocess.run(cmd, cwd=d, env=env, stdout=subprocess.PIPE, stderr=subprocess.STDOUT, text=True,
+                           errors="replace")
+        printed = {}
+        for line in r.stdout.splitlines():
+            if line.startswith('<<"VERIF_'):
+                pr = vlib._parse_printed(line)
+                if pr:
+                    printed.setdefault(pr[0], []).append(pr[1])
+        if not os.environ.get("VERIF_KEEP"):
+            shutil.rmtree(d, ignore_errors=True)
+        return i, r.returncode, printed, r.stdout, time.time() - t0
+
+    viol, counts, total = [], {}, 0
+    with ThreadPoolExecutor(max_workers=jobs) as ex:
+        results = list(ex.map(one, range(len(pieces))))
+    for i, rc, printed, out, wall in results:
+        if rc == 124:
+            raise vlib.NoVerdict("trace validation %s timed out after %ss" % (spec, timeout))
+        rep = printed.get("VERIF_VIOL")
+        if rc != 0 or not rep:
+            raise vlib.NoVerdict("trace validation %s/%s did not complete (rc=%s):\n%s" %
+                                 (spec, cfg, rc, "\n".join(out.splitlines()[-30:])))
+        last = rep[-1]
+        if (last[2] if len(last) > 2 else None) != len(pieces[i]):
+            raise vlib.NoVerdict("trace spec consumed %s of %d lines" % (last[2:], len(pieces[i])))
+        for r in (last[0] if isinstance(last[0], list) else []):
+            r = dict(r)
+            r["chunk"] = i
+            viol.append(r)
+        for c in printed.get("VERIF_COUNT", []):
+            for k, n in (c[0] or {}).items():
+                counts[k] = counts.get(k, 0) + n
+        total += len(pieces[i])
+        ctx.cov["tlc_runs"].append({"spec": spec, "cfg": cfg, "rc": rc, "piece": i, "lines": len(pieces[i]),
+                                    "wall_s": round(wall, 2)})
+    ctx.cov["trace_lines_validated"] = ctx.cov.get("trace_lines_validated", 0) + total
+    for k, n in counts.items():
+        ctx.cov["predicates"][k] = ctx.cov["predicates"].get(k, 0) + n
+    ctx.log("TLC trace %s: %d lines in %d concurrent pieces, %d violation records" % (spec, total, len(pieces), len(viol)))
+    return viol
+
+
+def tlc_models_parallel(ctx, spec, cfg, seeds, timeout=560):
+    """Run the same single-worker emission model concurrently with several seeds (vlib.tlc_model is
+    not re-entrant).  Each run must succeed (its invariants hold on the model); returns, per seed, the
+    list of VERIF_VEC values.  States/transitions are added to the evidence like vlib.tlc_model does."""
+    import re
+    import shutil
+    import subprocess
+    import time
+    from concurrent.futures import ThreadPoolExecutor
+
+    def one(seed):
+        d = os.path.join(ctx.work, "mtlc-%s-%d" % (cfg, seed))
+        os.makedirs(d)
+        for f in os.listdir(vlib.SPEC):
+            if f.endswith(".tla") or f.endswith(".cfg"):
+                shutil.copy(os.path.join(vlib.SPEC, f), d)
+        cmd = ["timeout", str(timeout), "tlc", "-metadir", os.path.join(d, "meta"), "-workers", "1",
+               "-config", cfg + ".cfg", "-seed", str(seed), spec + ".tla"]
+        t0 = time.time()
+        r = subprocess.run(cmd, cwd=d, stdout=subprocess.PIPE, stderr=subprocess.STDOUT, text=True, errors="replace")
+        vecs, gen, dist = [], 0, 0
+        for line in r.stdout.splitlines():
+            if line.startswith('<<"VERIF_VEC"'):
+                pr = vlib._parse_printed(line)
+                if pr:
+                    vecs.append(pr[1][0])
+                continue
+            m = re.match(r"^(\d+) states generated, (\d+) distinct states found", line)
+            if m:
+                gen, dist = int(m.group(1)), int(m.group(2))
+        if not os.environ.get("VERIF_KEEP"):
+            shutil.rmtree(d, ignore_errors=True)
+        return seed, r.returncode, vecs, gen, dist, r.stdout, time.time() - t0
+
+    with ThreadPoolExecutor(max_workers=len(seeds)) as ex:
+        results = list(ex.map(one, seeds))
+    out = []
+    for seed, rc, vecs, gen, dist, stdout, wall in results:
+        if rc == 124:
+            raise vlib.NoVerdict("TLC timed out after %ss on %s/%s" % (timeout, spec, cfg))
+        if rc != 0:
+            raise vlib.NoVerdict("model check %s/%s (seed %d) failed (rc=%s):\n%s" %
+                                 (spec, cfg, seed, rc, "\n".join(stdout.splitlines()[-40:])))
+        ctx.cov["states"] += dist
+        ctx.cov["transitions"] += gen
+        ctx.cov["tlc_runs"].append({"spec": spec, "cfg": cfg, "rc": rc, "seed": seed, "generated": gen,
+                                    "distinct": dist, "wall_s": round(wall, 2)})
+        out.append(vecs)
+    ctx.log("TLC model %s/%s x %d seeds: %d vectors" % (spec, cfg, len(seeds), sum(len(v) for v in out)))
+    return out
